@@ -72,3 +72,47 @@ PROPS = {
                             "jobs are not added concurrently with the queue's destruction (client misuse)"],
             "budget": {"quick": 60, "thorough": 1200}, "tsan": {"quick": 20, "thorough": 300}},
 }
+
+WORLD_B_COMPONENTS = {
+    "real": ["lib/BuildSystem/BuildSystemFrontend.cpp", "lib/BuildSystem/BuildSystem.cpp", "lib/BuildSystem/BuildFile.cpp (YAML loader)",
+             "lib/BuildSystem/ExternalCommand.cpp", "lib/BuildSystem/ShellCommand.cpp", "lib/BuildSystem/BuildNode.cpp / BuildKey / BuildValue",
+             "lib/Core/BuildEngine.cpp", "lib/Core/SQLiteBuildDB.cpp", "lib/Core/MakefileDepsParser.cpp", "lib/Core/DependencyInfoParser.cpp",
+             "lib/Basic/LaneBasedExecutionQueue.cpp", "lib/Basic/Subprocess.cpp", "lib/Basic/FileSystem.cpp + FileInfo.cpp",
+             "llvm Support Path/MemoryBuffer/YAMLParser", "SQLite (static)"],
+    "simulated": ["file system (simfs behind stat/lstat/open/read/opendir/mkdir/unlink/...)", "database disk (sqlite3_vfs)",
+                  "processes, pipes, poll/wait4/kill (simproc)", "thread scheduling and clock (detsched)"],
+    "stub": ["the compiler: /sim/bin/cc is a deterministic simulated tool (reads inputs and #include lines, writes hashed outputs and "
+             "dependency files with the documented escaping)"],
+    "not_run": ["clang/swift/archive/shared-library tools", "lib/Commands", "lib/Ninja"],
+}
+ASSUME_B = [
+    "commands are deterministic functions of declared and discovered inputs (simulated tool)",
+    "every edit is observable: the simulated clock is strictly monotonic, so each write changes mtime",
+    "discovered dependencies name source files only; directory-tree inputs have complete producer edges",
+    "preemption at synchronisation operations, simulated syscalls and harness yield points only",
+]
+
+
+def b(rule, quick=60, thorough=1200):
+    return {"level": "exploration", "rule": rule, "components": WORLD_B_COMPONENTS, "assumptions": ASSUME_B,
+            "budget": {"quick": quick, "thorough": thorough}}
+
+
+PROPS.update({
+    "C08": b("seeded build descriptions (2-12 shell/phony commands, multiple outputs, shared sub-graphs, dependency files) written as YAML "
+             "and loaded by the real BuildFile x histories of {edit/delete source, delete/overwrite output, edit description, inject failure, "
+             "build target} in a new frontend per build, serial and parallel lanes; after each successful build every output reachable "
+             "from the target is compared with an independent clean-build evaluation. Non-trivial: a description edit and a source edit "
+             "occurred and some command was legitimately skipped."),
+    "C09": b("same generator; per build the set of executed commands (log of the simulated tool) is compared with a file-state model: "
+             "a command must run iff it never succeeded, its definition hash changed (each single-attribute edit kind), an input/"
+             "discovered/output state differs from what it recorded, or a producer of an input ran. Non-trivial: a build that both ran "
+             "and skipped commands, or a null build."),
+    "C10": b("same generator with injected command failures (exit status, fatal signal, failure after writing one output, missing "
+             "source input); no transitive consumer may run, the build must report failure, the command must be retried, and after "
+             "repair the build converges (C08 oracle). Non-trivial: at least one build with a failing command."),
+    "C11": b("commands read undeclared paths spelled with every character special to the formats (space # $ backslash colon, relative, "
+             "absolute, sub-directories) and report them in Makefile-style (single line, continuations, CRLF, several rules) or "
+             "dependency-info files; recovered paths are compared byte for byte, later edits/creations/deletions of those paths must "
+             "re-run the command, malformed files must fail it. Non-trivial: discovered dependencies were delivered."),
+})
